@@ -96,12 +96,38 @@ structure Dataset (F : Type) where
   nSel : Nat
   Rk : List (List F)
 
-/-- the whole pipeline: weights `W`, yields `Y` (dataset rows), datasets -/
-def stackedLLR (opa ns : F) (W : List F) (Y : List (List F)) (ds : List (Dataset F)) : F :=
-  let a := ajk W Y
+/-- `MultiDatasetTCLLHRatio.evaluate` given the content `a` of the shared weight service -/
+def evalWith (opa ns : F) (a : List (List F)) (ds : List (Dataset F)) : F :=
   llrMulti opa ns (fj a)
     ((List.zip a ds).map (fun p =>
       (p.2.N, (ratioWeighted p.1 p.2.Rk p.2.nSel).map (LLH.xOfRatio p.2.N))))
+
+/-- the whole pipeline: weights `W`, yields `Y` (dataset rows), datasets -/
+def stackedLLR (opa ns : F) (W : List F) (Y : List (List F)) (ds : List (Dataset F)) : F :=
+  evalWith opa ns (ajk W Y) ds
+
+/-- Operations on one object graph.  The two weight services are *shared*: besides the likelihood
+ratio, the signal generator (or anybody else) recalculates them at its own parameters. -/
+inductive SvcOp (P F : Type) where
+  | recalc (p : P)           -- `SrcDetSigYieldWeightsService.calculate(p)` + `DatasetSignalWeightFactorsService.calculate()`
+  | eval (p : P) (ns : F)    -- `MultiDatasetTCLLHRatio.evaluate`: recalculates both services at `p`, then evaluates
+
+/-- one step: the state is the `a_jk` table currently held by the shared service; `Yof p` are the
+detector signal yields at source parameters `p` -/
+def svcStep {P : Type} (opa : F) (W : List F) (Yof : P → List (List F)) (ds : List (Dataset F))
+    (st : List (List F)) : SvcOp P F → List (List F) × Option F
+  | .recalc p => (ajk W (Yof p), none)
+  | .eval p ns => (ajk W (Yof p), some (evalWith opa ns (ajk W (Yof p)) ds))
+
+/-- run a history, collecting the values returned by the `eval` operations -/
+def svcRun {P : Type} (opa : F) (W : List F) (Yof : P → List (List F)) (ds : List (Dataset F))
+    (st : List (List F)) : List (SvcOp P F) → List F
+  | [] => []
+  | op :: rest =>
+      let r := svcStep opa W Yof ds st op
+      match r.2 with
+      | some v => v :: svcRun opa W Yof ds r.1 rest
+      | none => svcRun opa W Yof ds r.1 rest
 
 end
 
